@@ -43,19 +43,19 @@ type c01leaf struct {
 	ChainP   []string // paths of the same
 	Kind     int
 	Text     string
-	Unique   bool   // Text is a unique marker in this value
-	Expect   string // expected local name of the attribute / element ("" = unknown)
-	Explicit bool   // Expect comes from an explicit name in the struct tag
-	IsString bool   // string-typed: eligible for adversarial substitution
-	Raw      bool   // innerxml field
-	NoInject bool   // documented contract "raw XML supplied by the caller"
-	Subst    bool   // carries a substituted (adversarial) string in this build
+	Unique   bool      // Text is a unique marker in this value
+	Expect   string    // expected local name of the attribute / element ("" = unknown)
+	Explicit bool      // Expect comes from an explicit name in the struct tag
+	IsString bool      // string-typed: eligible for adversarial substitution
+	Raw      bool      // innerxml field
+	NoInject bool      // documented contract "raw XML supplied by the caller"
+	Subst    bool      // carries a substituted (adversarial) string in this build
 	Steps    []c01step // how to reach the field in a parsed value
 }
 
 // one navigation step from the root value towards a leaf
 type c01step struct {
-	kind byte         // 'f' field i, 'p' pointer, 's' slice index i, 'i' interface holding typ, 'a' attribute named name in a []xml.Attr
+	kind byte // 'f' field i, 'p' pointer, 's' slice index i, 'i' interface holding typ, 'a' attribute named name in a []xml.Attr
 	i    int
 	typ  reflect.Type
 	name string
@@ -133,9 +133,9 @@ func c01variants(t reflect.Type) []reflect.Type {
 }
 
 type c01tag struct {
-	ns, local                                        string
+	ns, local                                       string
 	attr, omitempty, chardata, cdata, innerxml, any bool
-	skip                                             bool
+	skip                                            bool
 }
 
 func c01parseTag(s string) c01tag {
